@@ -237,7 +237,7 @@ Proof.
   apply h_pure; cbn [fst snd]; intros Hk.
   cbv beta iota.
   apply h_bind with (R := fun _ => Bv).
-  { destruct (s_cryptex st && _); [|apply h_ret; auto].
+  { match goal with |- context [if ?c then _ else ret false] => destruct c end; [|apply h_ret; auto].
     eapply h_bind; [apply h_rd_bv|intros h]. apply h_ret. intros w [_ H]. exact H. }
   intros inuse.
   apply h_bind with (R := fun _ => Bv).
